@@ -112,9 +112,15 @@ async def make_device(loop, cfg, manual):
     rank_of = {}
     faults = set(cfg.get("faults", ()))
 
-    def heard(call):
-        """Record one notification; the user's listener raises if the history says so."""
+    current = {"push": None, "aud": None, "kbd": None}     # the listener object assigned right now, per kind
+    KIND = {"DPlay": "push", "DErr": "push", "DVol": "aud", "DDev": "aud", "DFocus": "kbd"}
+
+    def heard(call, me=None):
+        """Record one notification received by listener object `me`; the listener raises if the history says so.
+        Only the listener that is assigned WHEN THE NOTIFICATION IS DELIVERED may receive it."""
         got.append(call)
+        if me is not current[KIND[call[0]]]:
+            got.append(["Misdelivered", call[0]])
         if len(got) - 1 in faults:
             raise RuntimeError("user listener failed on notification %d" % (len(got) - 1))
 
@@ -189,10 +195,10 @@ async def make_device(loop, cfg, manual):
 
     class Push(interface.PushListener):
         def playstatus_update(self, updater, playstatus):
-            heard(["DPlay", rank_of[id(updater)], status_index(playstatus)])
+            heard(["DPlay", rank_of[id(updater)], status_index(playstatus)], self)
 
         def playstatus_error(self, updater, exception):
-            heard(["DErr", rank_of[id(updater)]])
+            heard(["DErr", rank_of[id(updater)]], self)
 
     FOCUS = [KeyboardFocusState.Unknown, KeyboardFocusState.Unfocused, KeyboardFocusState.Focused]
     DEVS = DEV_VALUES
@@ -233,15 +239,15 @@ async def make_device(loop, cfg, manual):
 
     class AudL(interface.AudioListener):
         def volume_update(self, old_level, new_level):
-            heard(["DVol", VOL_CANON[VOLS.index(old_level)], VOL_CANON[VOLS.index(new_level)]])   # index() compares with ==
+            heard(["DVol", VOL_CANON[VOLS.index(old_level)], VOL_CANON[VOLS.index(new_level)]], self)   # index() compares with ==
 
         def outputdevices_update(self, old_devices, new_devices):
             k = lambda ds: DEVS.index([(d.name, d.identifier) for d in ds])
-            heard(["DDev", k(old_devices), k(new_devices)])
+            heard(["DDev", k(old_devices), k(new_devices)], self)
 
     class Key(interface.KeyboardListener):
         def focusstate_update(self, old_state, new_state):
-            heard(["DFocus", FOCUS.index(old_state), FOCUS.index(new_state)])
+            heard(["DFocus", FOCUS.index(old_state), FOCUS.index(new_state)], self)
 
     core = MessageDispatcher()
     config = conf.AppleTV("127.0.0.1", "verif")
@@ -271,8 +277,22 @@ async def make_device(loop, cfg, manual):
         atv.add_protocol(SetupData(proto, connect, lambda: set(), lambda: {}, ifaces, set()))
     await atv.connect()
     pu, audio, kbd = atv.push_updater, atv.audio, atv.keyboard
-    listeners = [Push(), AudL(), Key()]
-    pu.listener, audio.listener, kbd.listener = listeners
+    listeners = []           # every listener object ever assigned stays alive and keeps recording
+    CLS = {"push": Push, "aud": AudL, "kbd": Key}
+    OWNER = {"push": pu, "aud": audio, "kbd": kbd}
+
+    def set_listener(kind, what):
+        """The user assigns the listener of the push updater / audio / keyboard: a new object, the same object
+        again, or None."""
+        if what == "none":
+            current[kind] = None
+        elif what == "new" or current[kind] is None:
+            current[kind] = CLS[kind]()
+            listeners.append(current[kind])
+        OWNER[kind].listener = current[kind]
+    for kind in ("push", "aud", "kbd"):
+        if not (kind == "push" and cfg.get("no_push_listener")):
+            set_listener(kind, "new")
     relayers = {"push": pu, "kbd": kbd}
     IFACE = {"push": interface.PushUpdater, "kbd": interface.Keyboard}
 
@@ -302,6 +322,8 @@ async def make_device(loop, cfg, manual):
                     audios[op[1]].device_changed(VOLS[op[2]])
                 else:
                     disps[op[1]].dispatch(UpdatedState.Volume, VOLS[op[2]])
+            elif k == "SetL":
+                set_listener(op[1], op[2])
             elif k == "SetVol":
                 await audio.set_volume(VOLS[op[1]])       # the user, through the real FacadeAudio
             elif k == "VolUp":
@@ -417,6 +439,7 @@ def oracle(cfg, ops, outs):
     take = {"push": None, "kbd": None}
     started = False
     closed = False
+    has_push_listener = not cfg.get("no_push_listener")
     vq, dq, fq = [], [], []          # values accepted for delivery, in dispatch (= FIFO) order
     aregs = [e[0] for e in cfg["protos"] if len(e) > 4 and e[4]]
     level = dict((r, 0) for r in aregs)          # level held by each protocol's Audio (steps of 5 percent)
@@ -436,6 +459,8 @@ def oracle(cfg, ops, outs):
             owed.append(["DPlay", op[1], op[2]])
         elif k == "Err" and started:
             owed.append(["DErr", op[1]])
+        elif k == "SetL" and op[1] == "push":
+            has_push_listener = op[2] != "none"
         elif k == "Take" and res == "ok":
             for w in op[2]:
                 take[w] = op[1]
@@ -462,13 +487,16 @@ def oracle(cfg, ops, outs):
         if k == "RunAll" and not stepped:
             # produced while started, nobody stopped since, its protocol serves metadata now (the holder of
             # the takeover if it has an updater, otherwise the highest-priority one): it must arrive
-            must = [d for d in owed if d[1] == main]
+            must = [d for d in owed if d[1] == main] if has_push_listener else []
             it = iter([d for d in ds if d[0] in ("DPlay", "DErr")])
             if not all(any(x == y for y in it) for x in must):
                 errs.append(("C10:active:update-of-active-protocol-lost",
                              "op %d %r delivered %r, but %r were produced by the active protocol %s while started" % (j, op, ds, must, main)))
             owed = []
         for d in ds:
+            if d[0] == "Misdelivered":
+                errs.append(("C10:listener:delivered-to-a-listener-not-assigned-now",
+                             "op %d %r: a %s notification went to a listener object that is not the one assigned at delivery time" % (j, op, d[1])))
             if d[0] in ("DPlay", "DErr"):
                 if not started:
                     errs.append(("C10:close:update-after-close" if closed else "C10:stop:queued-update-delivered",
@@ -505,7 +533,7 @@ def oracle(cfg, ops, outs):
     # completeness in the clear-cut regime: started once at the beginning, never stopped,
     # no takeover, everything drained at the end -> every changed post of the main updater arrives
     kinds = [op[0] for op in ops]
-    if ops and kinds[0] == "Start" and kinds[-1] == "RunAll" and not any(k in ("Stop", "Close", "Take", "Rel", "Start") for k in kinds[1:]):
+    if ops and kinds[0] == "Start" and kinds[-1] == "RunAll" and not any(k in ("Stop", "Close", "Take", "Rel", "Start", "SetL") for k in kinds[1:]) and has_push_listener:
         main = min(regs) if regs else None
         exp = [c for c in changed if c[0] == main]
         if plays != exp:
@@ -579,6 +607,8 @@ def c_op(op):
 
 
 def c_out(d):
+    if d[0] == "Misdelivered":
+        return "DErr 99"           # no model output: will not match
     return "%s %s" % (d[0], " ".join(str(x) for x in d[1:]))
 
 
@@ -587,8 +617,15 @@ def c_res(r):
 
 
 def c_case(cfg, ops, outs):
-    return "(%s, %s, %s)" % (c_cfg(cfg), common.clist([c_op(o) for o in ops]),
-                             common.clist(["(%s, %s)" % (common.clist([c_out(d) for d in ds]), c_res(r)) for r, ds in outs]))
+    # assigning a listener object is no event of the model (there always is one: histories with a
+    # None push listener are judged by the oracle only, see modelled())
+    keep = [j for j, o in enumerate(ops) if o[0] != "SetL"]
+    return "(%s, %s, %s)" % (c_cfg(cfg), common.clist([c_op(ops[j]) for j in keep]),
+                             common.clist(["(%s, %s)" % (common.clist([c_out(d) for d in outs[j][1]]), c_res(outs[j][0])) for j in keep]))
+
+
+def modelled(cfg, ops):
+    return not cfg.get("no_push_listener") and not any(o[0] == "SetL" and o[2] == "none" for o in ops)
 
 
 # ------------------------------------------------------------------ generation
@@ -632,7 +669,10 @@ def rand_ops(rng, cfg, length, manual):
             ops.append(["Dev", rng.choice(ranks), rng.randrange(len(DEV_VALUES))])
         elif x < 0.84:
             ops.append(["Focus", rng.choice(ranks + ranks + [rng.randrange(5)]), rng.randrange(3)])
-        elif manual and x < 0.93:
+        elif x < 0.88:
+            kind = rng.choice(["push", "push", "aud", "kbd"])
+            ops.append(["SetL", kind, rng.choice(["new", "same", "none"] if kind == "push" else ["new", "same"])])
+        elif manual and x < 0.94:
             ops.append(["Run1"])
         else:
             ops.append(["RunAll"])
@@ -665,28 +705,30 @@ def run(ctx):
                 "(through the real FacadeAudio to a protocol Audio that applies and announces the level as RAOP/MRP/Companion do), run-all} - volumes include -0.0 and int 10 (equal to 0.0 / 10.0), device lists "
                 "agree on the identifier and differ in the name (renamed, unnamed); (b'') start followed by every sequence of length <= %d ending in "
                 "run-all over {error(hi), error(lo), post(hi), start, stop, close, takeover(lo), release, run-all} on both loops; "
-                "(b3) every ordered pair (a, b) of play statuses (5 with derived hash; one with explicit hash against each single-field variant of it, every field of Playing incl. hash alone) / 8 volumes / 5 device lists / 3 focus states reported as a, b, a and drained (and as a | a, b | a), each also with user listeners that raise on the first / on the first three notifications; "
+                "(b4) start followed by every sequence of length <= %d ending in run-all over {start, stop, post x2, error, assign a new push listener, "
+                "assign the same again, assign None, run-all} that assigns and posts, with and without a push listener before start (the listener assigned at "
+                "delivery time gets it, nobody else; sequences with a None listener are judged by the oracle only); (b3) every ordered pair (a, b) of play statuses (5 with derived hash; one with explicit hash against each single-field variant of it, every field of Playing incl. hash alone) / 8 volumes / 5 device lists / 3 focus states reported as a, b, a and drained (and as a | a, b | a), each also with user listeners that raise on the first / on the first three notifications; "
                 "(c) %d random sequences of length 4..16 over the full alphabet (post/error by any protocol (real MrpPushUpdater.state_updated) with 5+1+16 statuses (explicit hash, every single-field variant), start, stop, "
                 "close, takeover/release of push and/or keyboard by any protocol, volume/output-device/focus dispatch (8/5/3 values), user set_volume/volume_up/volume_down, "
                 "run-one (stepped loop only), run-all), random configuration, half on each loop; a quarter of them, the comparer block and the value pairs also with a SECOND device object "
                 "(own facade, dispatcher and listeners) idle or busy in the same process, histories interleaved, each device judged against its own events.  distinct = (configuration, loop mode, sequence); "
-                "non-trivial = a user listener received at least one call" % (len(exh_cfgs), maxlen, maxlen, maxlen, nrand))
+                "non-trivial = a user listener received at least one call" % (len(exh_cfgs), maxlen, maxlen, maxlen, maxlen, nrand))
     cases = []
     shortest = {}      # violation key -> shortest failing sequence seen
 
     budget = 1500 if ctx.thorough else 200        # seconds for driving the implementation
-    t_start = time.time()
+    t_start = time.process_time()      # CPU time of this process: independent of the load on the machine
     over = []
 
     def one(cfg, ops, manual, kind):
-        if time.time() - t_start > budget:
+        if time.process_time() - t_start > budget:
             # the implementation under test is far slower than the reference tree (e.g. state that piles up
             # from run to run): stop enumerating, report what was found
             if not over:
                 over.append(kind)
             return
         percase, errs, raw = judge(cfg, ops, manual)
-        cases.extend(percase)            # two device objects: each one is an ordinary case of its own
+        cases.extend(c for c in percase if modelled(c[0], c[1]))     # two device objects: each one an ordinary case of its own
         ctx.count(kind)
         ctx.count("loop:" + ("stepped" if manual else "asyncio"))
         if len(percase) > 1:
@@ -764,6 +806,20 @@ def run(ctx):
                     one(cfgp, [[kind, r0, a], ["RunAll"], [kind, r0, a], [kind, r0, b], ["RunAll"], [kind, r0, a], ["RunAll"]], bool((a + b) % 2), "value-pairs")
                     if not plan:      # ... and with a second, busy device object in the same process
                         one(*with_twin(cfgp, [[kind, r0, a], [kind, r0, b], ["RunAll"], [kind, r0, a], ["RunAll"]], TWIN_CFG, TWIN_SCRIPT), False, "value-pairs")
+    # (b4) the user assigns the push listener (a new object, the same again, None) before and after start():
+    # the listener assigned when a status is DELIVERED gets it, nobody else
+    for cfg in (EXH_CFGS[0], dict(EXH_CFGS[0], no_push_listener=True)):
+        r0 = cfg["protos"][0][0]
+        alpha = [["Start"], ["Stop"], ["Post", r0, 0], ["Post", r0, 1], ["Err", r0], ["SetL", "push", "new"], ["SetL", "push", "same"],
+                 ["SetL", "push", "none"], ["RunAll"]]
+        for length in range(1, maxlen + 1):
+            for seq in itertools.product(alpha, repeat=length):
+                kinds = set(o[0] for o in seq)
+                if seq[-1][0] == "RunAll" and "SetL" in kinds and ("Post" in kinds or "Err" in kinds):
+                    one(cfg, [["Start"]] + list(seq), bool(length % 2), "exhaustive-listener-len%d" % length)
+    for kind, op1, op2 in (("aud", ["Vol", 0, 2], ["Vol", 0, 3]), ("aud", ["Dev", 0, 1], ["Dev", 0, 2]), ("kbd", ["Focus", 0, 1], ["Focus", 0, 2])):
+        for what in ("new", "same"):
+            one(EXH_CFGS[0], [op1, ["SetL", kind, what], op2, ["RunAll"], op1, ["RunAll"], ["SetL", kind, what], op2, ["RunAll"]], False, "exhaustive-listener-len4")
     ctx.exhaustive = True
     for i in range(nrand):
         cfg = rand_cfg(ctx.rng)
